@@ -44,7 +44,7 @@ package proxy
 //@ props C06 C09 C16 C15 C02 C05
 //@ func fetcher.handleUpstream304
 //@   nopanic
-//@   assigns cache. map_map_cache.CacheKey atomic.Int64 ghost:mapsum ghost:fsinode ghost:jsize ghost:jexp ghost:handleinode ghost:callcount
+//@   assigns cache. map_map_cache.CacheKey atomic.Int64 ghost:mapsum ghost:fsinode ghost:jsize ghost:mbytes ghost:mentries ghost:jexp ghost:handleinode ghost:callcount
 //@   requires specFetcher(f) && req != nil
 //@   ghost callsite-requires [C06,C02] UpdateMetadata keyid(arg_key) == keyid(key)
 //@   ghost callsite-requires [C06,C02] Get keyid(arg_key) == keyid(key)
@@ -65,7 +65,7 @@ package proxy
 //@ props C04 C06 C09 C16 C15 C02 C03
 //@ func fetcher.handleUpstream200
 //@   nopanic
-//@   assigns cache. map_map_cache.CacheKey atomic.Int64 ghost:mapsum ghost:fsinode ghost:jsize ghost:jexp ghost:handleinode ghost:isize ghost:icontent
+//@   assigns cache. map_map_cache.CacheKey atomic.Int64 ghost:mapsum ghost:fsinode ghost:jsize ghost:mbytes ghost:mentries ghost:jexp ghost:handleinode ghost:isize ghost:icontent
 //@   requires specFetcher(f) && req != nil && resp != nil && resp.Request != nil && resp.Header != nil && resp.Body != nil && upstreamHd != nil
 //@   ghost callsite-requires [C06,C02] Cache keyid(arg_key) == keyid(key)
 //@   ghost callsite-requires [C06] Cache arg_metadata.Header == resp.Header
@@ -87,7 +87,7 @@ package proxy
 //@   ghost mutual fetcher.handleUpstreamResponse
 //@   ghost callsite-requires [C02] handleUpstreamResponse keyid(arg_key) == keyid(key)
 //@   nopanic
-//@   assigns HeaderDirectives new:http.Request url.URL http.Response@resp new:http.Response map_ ghost:upstream cache. map_map_cache.CacheKey atomic.Int64 ghost:mapsum ghost:fsinode ghost:jsize ghost:jexp ghost:handleinode ghost:isize ghost:icontent ghost:callcount
+//@   assigns HeaderDirectives new:http.Request url.URL http.Response@resp new:http.Response map_ ghost:upstream cache. map_map_cache.CacheKey atomic.Int64 ghost:mapsum ghost:fsinode ghost:jsize ghost:mbytes ghost:mentries ghost:jexp ghost:handleinode ghost:isize ghost:icontent ghost:callcount
 //@   requires specFetcher(f) && req != nil && req.URL != nil && req.Header != nil && resp != nil && resp.Body != nil && clientHd != nil
 //@   ensures [C09] err == nil && cached != nil ==> specEntryShape(cached)
 //@   ensures [C09] err != nil ==> cached == nil && (iserr(err, ErrCacheResponseFailed) || iserr(err, ErrUpdateCacheMetadata) || upfails > old(upfails))
@@ -110,7 +110,7 @@ package proxy
 //@   ghost callsite-requires [C02] handleUpstream304 keyid(arg_key) == keyid(key)
 //@   ghost callsite-requires [C02] handleUpstream416 keyid(arg_key) == keyid(key)
 //@   nopanic
-//@   assigns HeaderDirectives new:http.Request url.URL http.Response@resp new:http.Response map_ ghost:upstream cache. map_map_cache.CacheKey atomic.Int64 ghost:mapsum ghost:fsinode ghost:jsize ghost:jexp ghost:handleinode ghost:isize ghost:icontent ghost:callcount
+//@   assigns HeaderDirectives new:http.Request url.URL http.Response@resp new:http.Response map_ ghost:upstream cache. map_map_cache.CacheKey atomic.Int64 ghost:mapsum ghost:fsinode ghost:jsize ghost:mbytes ghost:mentries ghost:jexp ghost:handleinode ghost:isize ghost:icontent ghost:callcount
 //@   requires specFetcher(f) && req != nil && req.URL != nil && req.Header != nil && resp != nil && resp.Request != nil && specHdrOK(resp.Header) && resp.Body != nil && clientHd != nil
 //@   ensures [C09] err == nil && cached != nil ==> specEntryShape(cached)
 //@   ensures [C09] err != nil ==> cached == nil && (iserr(err, ErrCacheResponseFailed) || iserr(err, ErrUpdateCacheMetadata) || upfails > old(upfails))
@@ -145,7 +145,7 @@ package proxy
 //@ func fetcher.fetchUpstream
 //@   ghost callsite-requires [C02] handleUpstreamResponse keyid(arg_key) == keyid(key)
 //@   nopanic
-//@   assigns HeaderDirectives http.Request@req new:http.Request url.URL new:http.Response map_ ghost:upstream cache. map_map_cache.CacheKey atomic.Int64 ghost:mapsum ghost:fsinode ghost:jsize ghost:jexp ghost:handleinode ghost:isize ghost:icontent ghost:callcount
+//@   assigns HeaderDirectives http.Request@req new:http.Request url.URL new:http.Response map_ ghost:upstream cache. map_map_cache.CacheKey atomic.Int64 ghost:mapsum ghost:fsinode ghost:jsize ghost:mbytes ghost:mentries ghost:jexp ghost:handleinode ghost:isize ghost:icontent ghost:callcount
 //@   requires specFetcher(f) && req != nil && req.URL != nil && req.Header != nil && clientHd != nil
 //@   ensures [C09] result1 == nil ==> specFetchShape(result0)
 //@   ensures [C09] result1 != nil ==> iserr(result1, ErrNotCacheable) || upfails > old(upfails)
@@ -179,7 +179,7 @@ package proxy
 //@ func fetcher.handleCacheMiss
 //@   ghost callsite-requires [C02] fetchUpstream keyid(arg_key) == keyid(key)
 //@   nopanic
-//@   assigns HeaderDirectives http.Request@req new:http.Request url.URL new:http.Response map_ ghost:upstream cache. map_map_cache.CacheKey atomic.Int64 ghost:mapsum ghost:fsinode ghost:jsize ghost:jexp ghost:handleinode ghost:isize ghost:icontent ghost:callcount
+//@   assigns HeaderDirectives http.Request@req new:http.Request url.URL new:http.Response map_ ghost:upstream cache. map_map_cache.CacheKey atomic.Int64 ghost:mapsum ghost:fsinode ghost:jsize ghost:mbytes ghost:mentries ghost:jexp ghost:handleinode ghost:isize ghost:icontent ghost:callcount
 //@   requires specFetcher(f) && req != nil && req.URL != nil && req.Header != nil && clientHd != nil
 //@   ensures [C09] result1 == nil ==> specFetchShape(result0)
 //@   ensures [C09] result1 != nil ==> iserr(result1, ErrNotCacheable) || upfails > old(upfails)
@@ -205,7 +205,7 @@ package proxy
 //@   ghost callsite-requires [C02] handleCacheMiss keyid(arg_key) == keyid(key)
 //@   ghost callsite-requires [C02] fetchUpstream keyid(arg_key) == keyid(key)
 //@   nopanic
-//@   assigns HeaderDirectives http.Request@req new:http.Request url.URL new:http.Response map_ ghost:upstream cache. map_map_cache.CacheKey atomic.Int64 ghost:mapsum ghost:fsinode ghost:jsize ghost:jexp ghost:handleinode ghost:isize ghost:icontent ghost:callcount
+//@   assigns HeaderDirectives http.Request@req new:http.Request url.URL new:http.Response map_ ghost:upstream cache. map_map_cache.CacheKey atomic.Int64 ghost:mapsum ghost:fsinode ghost:jsize ghost:mbytes ghost:mentries ghost:jexp ghost:handleinode ghost:isize ghost:icontent ghost:callcount
 //@   requires specFetcher(f) && req != nil && req.URL != nil && req.Header != nil && clientHd != nil
 //@   ghost callsite-requires [C06] fetchUpstream len(cached.Metadata.Object.ETag) > 0 ==> in(arg_req.Header, "If-None-Match") && len(arg_req.Header["If-None-Match"]) == 1 && sid(arg_req.Header["If-None-Match"][0]) == sid(cached.Metadata.Object.ETag)
 //@   ghost callsite-requires [C06] fetchUpstream old(specNoConditionals(req.Header)) && len(cached.Metadata.Object.ETag) == 0 ==> !in(arg_req.Header, "If-None-Match")
@@ -239,12 +239,12 @@ package proxy
 //@   ghost callsite-requires [C02] Get keyid(arg_key) == keyid(key)
 //@   ghost callsite-requires [C02] fetchUpstream keyid(arg_key) == keyid(key)
 //@   nopanic
-//@   assigns HeaderDirectives http.Request@req new:http.Request url.URL new:http.Response map_ ghost:upstream ghost:sfleader ghost:sfshared ghost:sferrs cache. map_map_cache.CacheKey atomic.Int64 ghost:mapsum ghost:fsinode ghost:jsize ghost:jexp ghost:handleinode ghost:isize ghost:icontent ghost:callcount
+//@   assigns HeaderDirectives http.Request@req new:http.Request url.URL new:http.Response map_ ghost:upstream ghost:sfleader ghost:sfshared ghost:sferrs cache. map_map_cache.CacheKey atomic.Int64 ghost:mapsum ghost:fsinode ghost:jsize ghost:mbytes ghost:mentries ghost:jexp ghost:handleinode ghost:isize ghost:icontent ghost:callcount
 //@   requires specFetcher(f) && req != nil && req.URL != nil && req.Header != nil && clientHd != nil
 //@   ghost callsite-requires [C06] getFromCacheOrFetch old(specNoConditionals(req.Header)) ==> specNoConditionals(arg_req.Header)
 //@   ghost shared-result [C05] (err == nil ==> specFetchShape(val) && val.Type == 0) && (err != nil ==> iserr(err, ErrNotCacheable) || upfails > old(upfails)) && specFetchErr(err)
 //@   ghost shared-result [C05,C09] upcancels == old(upcancels)
-//@   ghost shared-assigns cache. map_map_cache.CacheKey atomic.Int64 ghost:mapsum ghost:fsinode ghost:jsize ghost:jexp ghost:handleinode ghost:isize ghost:icontent
+//@   ghost shared-assigns cache. map_map_cache.CacheKey atomic.Int64 ghost:mapsum ghost:fsinode ghost:jsize ghost:mbytes ghost:mentries ghost:jexp ghost:handleinode ghost:isize ghost:icontent
 //@   ensures old(specHdInv(clientHd)) ==> specHdInv(clientHd)
 //@   ensures !iserr(err, ErrRangeNotSatisfiable) && !iserr(err, ErrIfRangeMismatch)
 //@   ensures [C09] err == nil ==> specFetchShape(fetched)
@@ -260,7 +260,7 @@ package proxy
 //@ func Proxy.handleRangeRequest
 //@   ghost callsite-requires [C02] dedupFetch keyid(arg_key) == keyid(key)
 //@   nopanic
-//@   assigns HeaderDirectives http.Request@req new:http.Request url.URL new:http.Response map_ ghost:upstream ghost:sfleader ghost:sfshared ghost:sferrs cache. map_map_cache.CacheKey atomic.Int64 ghost:mapsum ghost:fsinode ghost:jsize ghost:jexp ghost:handleinode ghost:isize ghost:icontent responder. ghost:httpstatus ghost:httpwrites ghost:respbody ghost:httperrs ghost:callcount
+//@   assigns HeaderDirectives http.Request@req new:http.Request url.URL new:http.Response map_ ghost:upstream ghost:sfleader ghost:sfshared ghost:sferrs cache. map_map_cache.CacheKey atomic.Int64 ghost:mapsum ghost:fsinode ghost:jsize ghost:mbytes ghost:mentries ghost:jexp ghost:handleinode ghost:isize ghost:icontent responder. ghost:httpstatus ghost:httpwrites ghost:respbody ghost:httperrs ghost:callcount
 //@   requires specFetcher(p.fetch) && specReqOK(req)
 //@   ensures [C09] result != nil ==> iserr(result, ErrRangeNotSatisfiable) || iserr(result, ErrIfRangeMismatch) || ioerr(result) || upfails > old(upfails) || sferrs > old(sferrs)
 //@   ensures [C09] httperrs(r) == old(httperrs(r)) || (httperrs(r) == old(httperrs(r)) + 1 && httpstatus(r) == 416 && iserr(result, ErrRangeNotSatisfiable))
@@ -371,7 +371,7 @@ package proxy
 //@   ghost callsite-requires [C02] dedupFetch keyid(arg_key) == keyid(key)
 //@   ghost callsite-requires [C02] handleRangeRequest keyid(arg_key) == keyid(key)
 //@   nopanic
-//@   assigns HeaderDirectives http.Request@req new:http.Request url.URL new:http.Response map_ ghost:upstream ghost:sfleader ghost:sfshared ghost:sferrs cache. map_map_cache.CacheKey atomic.Int64 ghost:mapsum ghost:fsinode ghost:jsize ghost:jexp ghost:handleinode ghost:isize ghost:icontent responder. ghost:httpstatus ghost:httpwrites ghost:respbody ghost:httperrs ghost:callcount metrics.
+//@   assigns HeaderDirectives http.Request@req new:http.Request url.URL new:http.Response map_ ghost:upstream ghost:sfleader ghost:sfshared ghost:sferrs cache. map_map_cache.CacheKey atomic.Int64 ghost:mapsum ghost:fsinode ghost:jsize ghost:mbytes ghost:mentries ghost:jexp ghost:handleinode ghost:isize ghost:icontent responder. ghost:httpstatus ghost:httpwrites ghost:respbody ghost:httperrs ghost:callcount metrics.
 //@   requires p.cfg != nil && aset(p.cfg.Proxy.RetryOnInvalidRange.value) && specFetcher(p.fetch) && specReqOK(req) && clientHd != nil && specHdInv(clientHd)
 //@   requires [C06] specNoConditionals(req.Header)
 //@   ghost callsite-requires [C06] dedupFetch specNoConditionals(arg_req.Header) && arg_req == req
@@ -396,7 +396,7 @@ package proxy
 //@ func Proxy.handleHTTP
 //@   ghost callsite-requires [C02] processRequest sid(arg_key.Hex) == specKeyHex(proxyReq.TLS != nil ? sid("https") : sid("http"), sid(proxyReq.Method), sid(proxyReq.Host), escpath(sid(proxyReq.URL.Path), sid(proxyReq.URL.RawPath)), sid(proxyReq.URL.RawQuery))
 //@   nopanic
-//@   assigns HeaderDirectives http.Request@proxyReq new:http.Request url.URL new:http.Response map_ ghost:upstream ghost:sfleader ghost:sfshared ghost:sferrs cache. map_map_cache.CacheKey atomic.Int64 ghost:mapsum ghost:fsinode ghost:jsize ghost:jexp ghost:handleinode ghost:isize ghost:icontent responder. ghost:httpstatus ghost:httpwrites ghost:respbody ghost:httperrs ghost:callcount metrics.
+//@   assigns HeaderDirectives http.Request@proxyReq new:http.Request url.URL new:http.Response map_ ghost:upstream ghost:sfleader ghost:sfshared ghost:sferrs cache. map_map_cache.CacheKey atomic.Int64 ghost:mapsum ghost:fsinode ghost:jsize ghost:mbytes ghost:mentries ghost:jexp ghost:handleinode ghost:isize ghost:icontent responder. ghost:httpstatus ghost:httpwrites ghost:respbody ghost:httperrs ghost:callcount metrics.
 //@   requires [C10] specRespEmpty(r)
 //@   requires p.cfg != nil && aset(p.cfg.Proxy.RetryOnInvalidRange.value) && specFetcher(p.fetch) && proxyReq != nil && proxyReq.URL != nil && specHdrOK(proxyReq.Header)
 //@   ghost callsite-requires [C06] processRequest specNoConditionals(arg_req.Header) && arg_req == proxyReq
